@@ -16,7 +16,10 @@ open HTree Spec
 /-- A refused consolidation attempt leaves the forest alone. -/
 theorem addConsolidate_false (f : Forest) (n : Nat) (a b : Option Nat)
     (h : (f.addConsolidate n a b).2 = false) : (f.addConsolidate n a b).1 = f := by
-  unfold Forest.addConsolidate at h ⊢
+  rw [Forest.addConsolidate_eq_old] at h ⊢
+  generalize f.selfPrev n a = a at h ⊢
+  generalize f.selfNext n b = b at h ⊢
+  unfold Forest.addConsolidateOld at h ⊢
   cases hc : f.consolidation with
   | false => simp
   | true =>
